@@ -11,6 +11,7 @@ use momtrop::TropicalSamplingSettings;
 use oracle::linalg::QMat;
 use oracle::num::*;
 use oracle::refsampler;
+use oracle::symanzik::{l_matrix, u_poly, v_first_term};
 use serde_json::{json, Value};
 use std::collections::HashMap;
 
@@ -221,11 +222,12 @@ pub fn run(ctx: &Ctx) -> i32 {
             Some(c) => c,
             None => return,
         };
-        let r = match route(&case, &case.base_kin()) {
+        let r = match route_via(&case, &case.base_kin()) {
             Ok(r) => r,
             Err(_) => return,
         };
         acc.inc("cases");
+        acc.hist("construction_path", r.via);
         let gr = groups(&case);
         let ne = case.g.ne();
         // hypercube dimension agrees with the role layout
@@ -421,6 +423,8 @@ pub fn run(ctx: &Ctx) -> i32 {
     if !is14 {
         let dd = dd_pass(ctx);
         acc.merge(dd);
+        let dds = dd_sampler_pass(ctx);
+        acc.merge(dds);
         acc.violations.sort_by(|a, b| (a.key.as_str(), a.what.as_str()).cmp(&(b.key.as_str(), b.what.as_str())));
         extra.insert("dd_matrices_judged".into(), json!(acc.get("dd_judged")));
     }
@@ -444,12 +448,12 @@ pub fn run(ctx: &Ctx) -> i32 {
     } else {
         Finish {
             level: "exploration",
-            rule: "(a) narrowing census with a tracking scalar on every explored execution (all sectors in scope, Ok / Unstable / GammaError exits, metadata on and off, debug off): every to_f64 argument is a constant or the designated coordinate, and the multiset of from_f64 arguments (Gamma result excepted) is identical across all points of a sector; (b) double-double scalar through decompose_for_tropical on structured SPD families and graph L matrices against exact rationals at 2^-86*cond; non-trivial = tracked executions + DD matrices judged".into(),
+            rule: "(a) narrowing census with a tracking scalar on every explored execution (all sectors in scope, Ok / Unstable / GammaError exits, metadata on and off, debug off): every to_f64 argument is a constant or the designated coordinate, and the multiset of from_f64 arguments (Gamma result excepted) is identical across all points of a sector; (b) double-double scalar through decompose_for_tropical on structured SPD families and graph L matrices against exact rationals at 2^-86*cond; (c) the whole sampler with the double-double scalar (exp/ln/pow in double-double arithmetic) on 2..4-loop bananas: the rescaled parameters recovered from the returned L matrix satisfy the tropical normalisation to 2^-80 and u, v agree with the exact polynomials to 2^-86*cond; non-trivial = tracked executions + DD matrices judged".into(),
             states: 0,
             transitions: 0,
             traces: 0,
-            evaluations: acc.get("tracked_executions") + acc.get("dd_evaluations"),
-            distinct_nontrivial: acc.get("tracked_executions") + acc.get("dd_judged"),
+            evaluations: acc.get("tracked_executions") + acc.get("dd_evaluations") + acc.get("dd_sampler_executions"),
+            distinct_nontrivial: acc.get("tracked_executions") + acc.get("dd_judged") + acc.get("dd_sampler_judged"),
             exhaustive: true,
             bounds: json!({"cases": cases.len(), "types": ["f64", "Tr (tracking)", "DD (double-double)"]}),
             assumptions: vec!["'any type implementing MomTropFloat' is represented by f64, the tracking scalar and the double-double type".into()],
@@ -578,6 +582,144 @@ pub fn dd_pass(ctx: &Ctx) -> Acc {
     })
 }
 
+// ---------------------------------------------------------------------------------------------------
+// C19 (c): the whole sampler with a double-double scalar (accurate exp / ln / pow), bananas with 2..4 loops
+// ---------------------------------------------------------------------------------------------------
+
+/// one execution; returns false if not judged
+pub fn check_dd_sample(case: &Case, r: &Routed, x: &[f64], acc: &mut Acc) -> bool {
+    let nl = case.nl;
+    let ne = case.g.ne();
+    let xs: Vec<DD> = x.iter().map(|v| DD::from(*v)).collect();
+    let ed: EdgeData<DD> = r.ed.iter().map(|(m, p)| (m.map(DD::from), p.iter().map(|c| DD::from(*c)).collect())).collect();
+    DD_ACCURATE.with(|l| *l.borrow_mut() = true);
+    let out = r.sampler.sample_with(&xs, &ed, &Settings::META, &NullLogger);
+    DD_ACCURATE.with(|l| *l.borrow_mut() = false);
+    acc.inc("dd_sampler_executions");
+    let s = match &out {
+        Outcome::Ok(s) => s,
+        _ => return false,
+    };
+    let m = match &s.meta {
+        Some(m) => m,
+        None => return false,
+    };
+    // Feynman parameters from the L matrix of the base routing: tree = {e0}, chords 1..L: L_ij = x_0 (i != j), L_ii = x_i + x_0
+    if nl < 2 || ne != nl + 1 {
+        return false;
+    }
+    let x0 = m.l_matrix[1];
+    let mut xe: Vec<DD> = vec![x0];
+    for i in 0..nl {
+        xe.push(m.l_matrix[i * nl + i] - x0);
+    }
+    let xq: Vec<Q> = match xe.iter().map(dd_to_q).collect::<Option<Vec<Q>>>() {
+        Some(v) => v,
+        None => return false,
+    };
+    if xq.iter().any(|q| *q <= Q::from_integer(0.into())) {
+        return false;
+    }
+    let key = |c: &str| vkey("C19", c, case, x);
+    let pc = || point_case(case, &r.kin, x, &Settings::META, json!({"prop": "C19", "dd_sampler": true}));
+    // (A) normalisation in the rescaled gauge, at double-double accuracy: U_tr^(D/2) V_tr^dod = 1
+    let mut order: Vec<usize> = (0..ne).collect();
+    order.sort_by(|a, b| xq[*b].cmp(&xq[*a]));
+    // all in double-double arithmetic, with the implementation's own f64 table constants D/2 and dod
+    let mut ln_ut = DD::from(0.0);
+    for &e in order.iter().take(nl) {
+        ln_ut = ln_ut + DD::ln_dd(&xe[e]);
+    }
+    let ln_vt = DD::ln_dd(&xe[order[ne - 1]]);
+    let d2 = case.g.dim as f64 / 2.0;
+    let dod_impl = r.sampler.get_dod();
+    let lhs_dd = DD::from(d2) * ln_ut + DD::from(dod_impl) * ln_vt;
+    let lhs = lhs_dd.hi + lhs_dd.lo;
+    let kap = 1.0 + d2 * ln_ut.hi.abs() + dod_impl * ln_vt.hi.abs();
+    // the parameters are recovered as differences L_ii - L_ij: a spread x_max/x_min costs that many of the 106 bits
+    let spread = q_to_f64(&(&xq[order[0]] / &xq[order[ne - 1]]));
+    let tol_a = 2f64.powi(-80) * kap + 2f64.powi(-100) * spread * (d2 * nl as f64 + dod_impl);
+    if !(tol_a <= 1e-20) {
+        acc.inc("dd_sampler_excluded_spread");
+        return false;
+    }
+    acc.inc("dd_sampler_judged");
+    acc.max("dd_sampler_normalisation_units_2^-80", lhs.abs() / tol_a);
+    if !(lhs.abs() <= tol_a) {
+        acc.violate(
+            key("wide type: normalisation"),
+            "a higher-precision type yields correspondingly more precise results",
+            format!("with a double-double scalar ln(U_tr^(D/2) V_tr^dod) = {lhs:e} after the rescaling (allowed {tol_a:e}); an f64 detour in the rescaling gives about 1e-16"),
+            pc(),
+        );
+        return true;
+    }
+    // (B) u and v against the exact polynomials at the double-double parameters
+    let ex_u = u_poly(&case.comb, &xq);
+    let ex_f = case.fpoly.eval(&xq);
+    if let (Some(uq), Some(vq)) = (dd_to_q(&s.u), dd_to_q(&s.v)) {
+        let l = l_matrix(&r.kin.sig, &xq);
+        let cond = l.cond1().map(|c| q_to_f64(&c)).unwrap_or(f64::INFINITY);
+        let first = v_first_term(&r.kin, &xq);
+        let vex = &ex_f / &ex_u;
+        let rr = q_to_f64(&(first / &vex)).abs().max(1.0);
+        let tu = 2f64.powi(-86) * cond;
+        let tv = 2f64.powi(-86) * cond * rr;
+        let eu = rel_err(&uq, &ex_u);
+        let ev = rel_err(&vq, &vex);
+        acc.max("dd_sampler_u_units", eu / tu);
+        acc.max("dd_sampler_v_units", ev / tv);
+        if tu <= 1e-12 && !(eu <= tu) {
+            acc.violate(key("wide type: u"), "a higher-precision type yields correspondingly more precise results", format!("double-double u has relative error {eu:e} against the exact spanning-tree sum (allowed {tu:e})"), pc());
+        }
+        if tv <= 1e-12 && !(ev <= tv) {
+            acc.violate(key("wide type: v"), "a higher-precision type yields correspondingly more precise results", format!("double-double v has relative error {ev:e} against F/U (allowed {tv:e})"), pc());
+        }
+    }
+    true
+}
+
+pub fn dd_sampler_pass(ctx: &Ctx) -> Acc {
+    use crate::scope::{banana, mk};
+    let mut specs = vec![];
+    for l in 2..=4usize {
+        for d in [3usize, 4, 5] {
+            let ne = l + 1;
+            for base in [0.7f64, 1.1, 1.45, 2.3] {
+                let w: Vec<f64> = (0..ne).map(|e| base + 0.1 * e as f64).collect();
+                let g = mk(&banana(l), &vec![false; ne], &w, &[0, 1], d);
+                if admissible(&g) {
+                    specs.push(CaseSpec { g, mom_variant: (l + d) % 2, mass_variant: 0, label: "dd".into() });
+                    break;
+                }
+            }
+        }
+    }
+    let tier = ctx.tier;
+    par_for(specs.len(), |i, acc| {
+        let case = match Case::new(&specs[i]) {
+            Some(c) => c,
+            None => return,
+        };
+        let r = match route(&case, &case.base_kin()) {
+            Ok(r) => r,
+            Err(_) => return,
+        };
+        acc.inc("dd_sampler_cases");
+        let roles = Roles { u: false, xi: true, p: false, ab: false, xi_moderate: true, xi_ladder: false };
+        let sectors = all_sectors(case.g.ne());
+        let stride = (sectors.len() + tier.pick(5, 23)) / tier.pick(6, 24);
+        for (si, order) in sectors.iter().enumerate() {
+            if si % stride.max(1) != 0 {
+                continue;
+            }
+            for (x, _) in sector_points(&case, order, 1, &roles) {
+                check_dd_sample(&case, &r, &x, acc);
+            }
+        }
+    })
+}
+
 pub fn replay_dd(case: &Value) -> i32 {
     let n = case["n"].as_u64().unwrap() as usize;
     let data = unjf_vec(&case["data"]);
@@ -609,6 +751,9 @@ pub fn replay_point(ctx: &Ctx, v: &Value) -> i32 {
     let x = unjf_vec(&v["x"]);
     let st = settings_from_json(&v["settings"]);
     let mut acc = Acc::new();
+    if v["extra"]["dd_sampler"].as_bool().unwrap_or(false) {
+        check_dd_sample(&case, &r, &x, &mut acc);
+    }
     let xs = if x.len() > groups(&case).dim { x[..groups(&case).dim].to_vec() } else { x.clone() };
     dataflow_point(&case, &r, &xs, &st, ctx.prop == "C14", ctx.prop == "C19", &mut HashMap::new(), None, &mut acc);
     let out = r.sampler.sample(&x, &r.ed, &st);
